@@ -259,7 +259,8 @@ fn gen_src(t: &mut Tape) -> Src {
         2 => Src::Paren(base),
         3 => Src::NonIdentArg(
             base,
-            ["::abs::T", "Vec<T>", "'a", "(A, B)", "a::B"][t.choose(5)].to_string(),
+            // `::T` (leading colon) and `<A>::C` (qualified self) are single segments but not plain identifiers
+            ["::abs::T", "Vec<T>", "'a", "(A, B)", "a::B", "::T", "<A>::C"][t.choose(7)].to_string(),
         ),
         _ => Src::Empty,
     }
